@@ -352,6 +352,13 @@ def render(lay, order_seed=None):
             entries.sort(key=lambda en: hashlib.sha1(
                 (str(order_seed) + en.to_line()).encode(
                     'utf8', 'surrogatepass')).digest())
+            # ... and the checksums within some lines are written in
+            # another order as well
+            for en in entries:
+                if en.tag not in ('TIMESTAMP', 'IGNORE') and hashlib.sha1(
+                        (str(order_seed) + 'ck' + en.to_line()).encode(
+                            'utf8', 'surrogatepass')).digest()[0] & 1:
+                    en.ck_reversed = True
         text = R.dump_entries(entries)
         if m.get('eol'):
             text = text.replace('\n', m['eol'])    # CRLF / CR line ends
